@@ -22,6 +22,7 @@ RULE = ('hostile multi-MiB streams per format (valid images, every length/count/
         'distinct by (stream spec, inspector, schedule)')
 REQUIRED_CLAUSES = ['bound-after-chunk', 'bound-after-finish', 'clamp-reached-vmdk', 'clamp-reached-vhdx']
 ASSUMPTIONS = ['context_info is the audit accessor named by the property; len(region.data) is cross-checked against it']
+INTERPRETER_FLAGS = [[], ['-O'], [], ['-bb']]
 SHARDS = {'quick': 8, 'thorough': 16}
 MIN_DISTINCT = {'quick': 300, 'thorough': 3000}
 LEVEL_TEXT = ('Exploration with a constant-bound invariant evaluated after every chunk; the workload is built so that the '
@@ -54,6 +55,9 @@ def hostile_vhdx(p):
     spec = {'meta_off': p.get('meta_off', 256 * 1024), 'item_off': p.get('item_off', 0x10000),
             'item_len': p.get('item_len', 8), 'n_pad_meta': p.get('n_pad_meta', 0), 'tail': p.get('tail', 3 * MI),
             'with_vds': p.get('with_vds', True), 'meta_len': p.get('meta_len', (1 << 32) - 1)}
+    for k in ('meta_sig', 'regi'):
+        if p.get(k) is not None:
+            spec[k] = p[k]
     if p.get('region_count') is not None:
         spec['region_count'] = p['region_count']
     if p.get('meta_count') is not None:
@@ -86,7 +90,8 @@ FIELDS = {
 FIELD_BASE = {'qcow2': {'total': 1024}, 'qed': {'total': 1024}, 'vhd': {'total': 1024}, 'vdi': {'total': 1024},
               'luks': {'total': 4096, 'payload': 2}, 'gpt': {'total': 2048}, 'mbr': {'total': 2048}, 'iso': {'total': 36864},
               'vmdk': {'desc_num': 4, 'min_total': 4096}}
-FLOOD_MARKS = ['\x01CD001', '\x00BEA01', '\x00BOOT2', '\x02CD001', '\x00NSR02', '\x00TEA01', '\xffCD001', 'conectix', 'KDMV', 'QFI\xfb',
+FLOOD_MARKS = ['\x00BEA01\x01', '\x00BOOT2\x01', '\x00CDW02\x01', '\x01CD001\x01', '\x02CD001\x01', '\xffCD001\x01', '\x00NSR02\x01',
+               '\x00NSR03\x01', '\x00TEA01\x01', '\x01CD001', '\x00BEA01', '\x00BOOT2', '\x02CD001', '\x00NSR02', '\x00TEA01', '\xffCD001', 'conectix', 'KDMV', 'QFI\xfb',
                'vhdxfile', 'head', 'regi', 'metadata', 'LUKS\xba\xbe\x00\x01', 'EFI PART', 'QED\x00', '<<< Oracle VM VirtualBox Disk Image >>>\n']
 
 
@@ -233,6 +238,8 @@ def run(ctx):
           dict(meta_count=2047), dict(meta_count=2048), dict(meta_count=65535), dict(n_pad_meta=2046),
           dict(n_pad_meta=2046, with_vds=False), dict(meta_off=MI, with_vds=False), dict(meta_off=MI, item_len=(1 << 32) - 1),
           dict(item_off=2 * MI, item_len=(1 << 32) - 1, tail=3 * MI)]
+    vh += [dict(meta_sig='metadatx'), dict(meta_sig='metadatx', meta_len=65536), dict(meta_sig='\x00etadata', n_pad_meta=100),
+           dict(regi=0), dict(meta_count=2048), dict(meta_count=65535, meta_sig='metadatx')]
     vh += [dict(meta_len=0), dict(meta_len=4096), dict(meta_len=65535, item_off=65536), dict(meta_len=1, item_len=(1 << 32) - 1),
            dict(meta_len=65536, item_off=65544), dict(meta_len=0, item_len=0)]
     for p in vh:
@@ -306,6 +313,12 @@ def run(ctx):
                 sch.append(['single-cut', [crng.choice(near)]])
         else:
             sch = schedules_for(crng, len(data), bounds, ctx.quick)
+            if spec['gen'] == 'hostile_vhdx':
+                mo = spec['params'].get('meta_off', 256 * 1024)
+                for d_ in (crng.choice([1, 31, 32, 33]), crng.choice([1000, 40000, 65535])):
+                    if mo + d_ < len(data):
+                        sch.append(['cut-inside-metadata-then-giant', [mo + d_]])
+                        sch.append(['cut-inside-metadata-then-1MiB', [mo + d_] + list(range(mo + d_ + MI, len(data), MI))])
         case = dict(spec, inspectors=insps, schedules=sch)
         ctx.sample(spec['gen'], {'gen': spec['gen'], 'params': spec['params'], 'inspectors': insps,
                                  'schedules': [s[0] for s in case['schedules']], 'stream_len': len(data)})
